@@ -20,7 +20,7 @@ Fixpoint nodes_ok rn (i : Z) (src : list A) : Prop :=
   | [] => True
   | (rid, st) :: up =>
       match st with
-      | SPersist => forall d, S (rid, i) d <-> d = plain_rev up src
+      | SPersist => forall d, S (rid, i) d <-> d = plain_rev i up src
       | _ => True
       end /\ nodes_ok up i src
   end.
@@ -56,13 +56,15 @@ Qed.
 (* ---------------------------------------------------------------- one partition *)
 Lemma compute_correct : forall now rn i src m,
   mgr_ok m -> nodes_ok rn i src ->
-  stream_elems (fst (fst (compute now rn i src m))) = plain_rev rn src /\
+  stream_elems (fst (fst (compute now rn i src m))) = plain_rev i rn src /\
   mgr_ok (snd (fst (compute now rn i src m))).
 Proof.
   induction rn as [|[rid st] up IH]; intros i src m Hm Hn; simpl.
   - split; [apply elems_of_list | exact Hm].
   - destruct Hn as [Hst Hup]. specialize (IH i src m Hm Hup).
-    destruct st as [f|p|g|h|].
+    destruct st as [f|p|g|fi|h|].
+    4: { destruct (compute now up i src m) as [[s m1] ev]; simpl in *.
+         destruct IH as [IH1 IH2]. split; auto. rewrite elems_lidx, IH1; reflexivity. }
     4: { destruct (compute now up i src m) as [[s m1] ev]; simpl in *.
          destruct IH as [IH1 IH2]. split; auto. rewrite elems_lpart, IH1; reflexivity. }
     + destruct (compute now up i src m) as [[s m1] ev]; simpl in *.
@@ -82,7 +84,7 @@ Qed.
 (* ---------------------------------------------------------------- jobs *)
 Lemma run_all_correct : forall now rn parts i m,
   mgr_ok m -> parts_ok rn i parts ->
-  fst (fst (run_all now rn parts i m)) = map (plain_rev rn) parts /\
+  fst (fst (run_all now rn parts i m)) = imap_from (fun i' => plain_rev i' rn) i parts /\
   mgr_ok (snd (run_all now rn parts i m)).
 Proof.
   induction parts as [|src ps IH]; intros i m Hm Hp; simpl; auto.
@@ -96,7 +98,7 @@ Qed.
 
 Lemma run_take_correct : forall now rn parts i n m,
   mgr_ok m -> parts_ok rn i parts ->
-  fst (fst (run_take now rn parts i n m)) = firstn n (concat (map (plain_rev rn) parts)) /\
+  fst (fst (run_take now rn parts i n m)) = firstn n (concat (imap_from (fun i' => plain_rev i' rn) i parts)) /\
   mgr_ok (snd (run_take now rn parts i n m)).
 Proof.
   induction parts as [|src ps IH]; intros i n m Hm Hp.
@@ -117,13 +119,13 @@ Proof.
     destruct (run_take now rn ps (i + 1) r m1) as [[ys ev2] m2].
     cbn [fst snd] in *.
     destruct IH as [IH1 IH2]. split; auto.
-    simpl map; simpl concat. rewrite firstn_app. unfold stream_elems in C1.
+    simpl imap_from; simpl concat. rewrite firstn_app. unfold stream_elems in C1.
     rewrite <- C1, <- T1, IH1, T2, map_length. reflexivity.
 Qed.
 
 Lemma pool_tasks_correct : forall now rn parts i m0,
   mgr_ok m0 -> parts_ok rn i parts ->
-  map (fun t => fst (fst t)) (pool_tasks now rn parts i m0) = map (plain_rev rn) parts /\
+  map (fun t => fst (fst t)) (pool_tasks now rn parts i m0) = imap_from (fun i' => plain_rev i' rn) i parts /\
   Forall (fun t => forall k d tt, In (k, (d, tt)) (snd t) -> S k d) (pool_tasks now rn parts i m0).
 Proof.
   induction parts as [|src ps IH]; intros i m0 Hm Hp; simpl; auto.
@@ -145,7 +147,7 @@ Qed.
 
 Lemma run_pool_correct : forall now rn parts m,
   mgr_ok m -> parts_ok rn 0 parts ->
-  fst (fst (run_pool now rn parts m)) = map (plain_rev rn) parts /\
+  fst (fst (run_pool now rn parts m)) = imap_from (fun i' => plain_rev i' rn) 0 parts /\
   mgr_ok (snd (run_pool now rn parts m)).
 Proof.
   intros now rn parts m Hm Hp. unfold run_pool; simpl.
@@ -155,13 +157,13 @@ Qed.
 
 Lemma run_action_correct : forall pool now rn parts a m,
   mgr_ok m -> parts_ok rn 0 parts ->
-  fst (fst (run_action_on pool now rn parts a m)) = finish a (map (plain_rev rn) parts) /\
+  fst (fst (run_action_on pool now rn parts a m)) = finish a (imap_from (fun i' => plain_rev i' rn) 0 parts) /\
   mgr_ok (snd (run_action_on pool now rn parts a m)).
 Proof.
   intros pool now rn parts a m Hm Hp.
   assert (Hall : forall ak, (ak = ACollect \/ ak = ACount) ->
      fst (fst (let '(ps, ev, m') := if pool then run_pool now rn parts m else run_all now rn parts 0 m in
-               (finish ak ps, ev, m'))) = finish ak (map (plain_rev rn) parts) /\
+               (finish ak ps, ev, m'))) = finish ak (imap_from (fun i' => plain_rev i' rn) 0 parts) /\
      mgr_ok (snd (let '(ps, ev, m') := if pool then run_pool now rn parts m else run_all now rn parts 0 m in
                (finish ak ps, ev, m')))).
   { intros ak _. destruct pool.
@@ -176,7 +178,7 @@ Proof.
     destruct (run_take now rn parts 0 n m) as [[xs ev] m']; simpl in *. subst; auto.
   - pose proof (run_take_correct now rn parts 0 1%nat m Hm Hp) as [R1 R2].
     destruct (run_take now rn parts 0 1%nat m) as [[xs ev] m']; simpl in *. split; auto.
-    rewrite R1. destruct (concat (map (plain_rev rn) parts)); reflexivity.
+    rewrite R1. destruct (concat (imap_from (fun i' => plain_rev i' rn) 0 parts)); reflexivity.
 Qed.
 
 Lemma delete_parts_ok : forall rid n i m, mgr_ok m -> mgr_ok (delete_parts rid n i m).
